@@ -15,7 +15,8 @@ SPEC = {
                    "reports, markers, stale lock, stray *.json) and 2-4 real uploader.Run calls executed as threads "
                    "of the deterministic scheduler, one os/http call per step ('os' and 'net/http' of internal/upload "
                    "rewritten to yielding shims in the scratch copy): random and bounded-context-switch schedules, "
-                   "kills after a random call, scripted server answers 200/4xx/5xx/3xx/none, a scripted "
+                   "kills after a random call, scripted server answers 200/4xx/5xx/3xx/none (a quarter of the answers with a body that cannot be read: "
+                   "status line and headers arrive, the connection is cut - the status decides all the same), a scripted "
                    "create-then-read race, the scripted 'lateunlock' scenario (three runs, two or three weeks to upload: "
                    "run A's first request fails and A is parked before its second, run B locks the first week and is "
                    "parked before its request, A runs to its END, run C runs completely, then B's request goes out), "
